@@ -242,11 +242,16 @@ impl Float {
             return self.clone();
         }
 
-        let ex = self.exp();
+        // Evaluate e^x / (e^x + 1) with a few guard bits and round once. The
+        // three roundings of the direct evaluation add up to more than two
+        // units in the last place for negative arguments.
+        let orig_sem = self.get_semantics();
+        let sem = orig_sem.increase_precision(8);
+        let ex = self.cast(sem).exp();
         if ex.is_inf() {
             return one; // e^x overflowed: the quotient rounds to one.
         }
-        &ex / (&ex + &one)
+        (&ex / (&ex + &Self::one(sem, false))).cast(orig_sem)
     }
 }
 
